@@ -236,7 +236,20 @@ def make_harness(cfg):
                 moved={d: (str(z3.simplify(moved[d])) != str(z3.simplify(pre[d]))) for d in shape},
                 landed={d: [n for n, t in tips.items() if z3.is_true(z3.simplify(t == moved[d]))]
                         for d in shape})
-        else:
+        if cfg.get('c03') and not force:
+            # C03 on the same run: a destination that moved now sits on a commit whose build is SUCCESSFUL
+            c3 = [z3.Implies(moved[d] != pre[d], repo.status_of(moved[d]) == OK) for d in shape]
+            ctx.stats.obligations += 1
+            r3, m3 = ctx.sat_model(z3.Not(z3.And(*c3)))
+            if r3 == 'sat':
+                red = [d for d in shape if z3.is_true(m3.eval(z3.And(moved[d] != pre[d],
+                                                                     repo.status_of(moved[d]) != OK), model_completion=True))]
+                res['c03_bad'] = dict(
+                    status={n: symgit.STATUSES[model_value(m3, t)] for n, t in st_terms.items()},
+                    moved={d: (str(z3.simplify(moved[d])) != str(z3.simplify(pre[d]))) for d in shape},
+                    landed={d: [n for n, t in tips.items() if z3.is_true(z3.simplify(t == moved[d]))]
+                            for d in shape}, red=red)
+        if r != 'sat':
             r2, m2 = ctx.sat_model()
             res['wit'] = dict(
                 status={n: symgit.STATUSES[model_value(m2, t)] for n, t in st_terms.items()},
@@ -467,3 +480,61 @@ def check(rep):
                                 signature(cfg, bad),
                                 {k.split('/bugfix')[0]: v for k, v in bad['status'].items() if v != 'SUCCESSFUL'},
                                 {d: l for d, l in bad['landed'].items() if bad['moved'][d]})))
+
+
+# -- C03 on the queue structures (hotfix, stabilization, major branches) ----------------------
+def c03_replay(data):
+    """Real repository: does a destination end on a queue commit whose status is not SUCCESSFUL?"""
+    cfg, status = data['cfg'], data['status']
+    got = real_run(cfg, status)
+    for d in BASE[cfg['struct']]:
+        if got[d]['moved'] and not any(status.get(n) == 'SUCCESSFUL' for n in got[d]['landed']):
+            return True
+    return False
+
+
+def _run_c03(cfg):
+    results, st = explore(make_harness(dict(cfg, c03=True)), max_paths=100000)
+    return cfg, results, st.as_dict()
+
+
+def c03_part(rep):
+    """The queues of c05 (built by the real add_to_queue on concrete graphs with hotfix,
+    stabilization and x.y / x development branches, symbolic statuses), with C03's own clause:
+    after the real handle_merge_queues every destination that moved sits on a commit whose
+    build is SUCCESSFUL."""
+    cfgs = [c for c in configs(rep.tier, rep.seed) if not c.get('force')]
+    if rep.tier == 'quick':
+        # hotfix queues, and the three-PR queues with a stabilization branch and an older development branch
+        cfgs = [c for c in cfgs if (c['struct'] in ('hotfix', 'stab+hotfix') and len(c['dests']) <= 2) or
+                (c['struct'] == 'stab' and len(c['dests']) == 3 and 'development/4.3' in c['dests'])]
+    rep.functions_encoded += ['queue structures of C05 (real add_to_queue x n, real handle_merge_queues; hotfix, '
+                              'stabilization and major development branches) under the C03 clause']
+    rep.bounds['queue structures'] = dict(structures=BASE, queued_prs='1..3', configurations=len(cfgs))
+    outs = common.pmap(_run_c03, cfgs)
+    fams = {}
+    moved_hot = False
+    for cfg, results, st in outs:
+        rep.add_stats(st, None)
+        for _, r in results:
+            if r.get('wit') and any(l and d.startswith('hotfix/') for d, l in r['wit']['landed'].items()):
+                moved_hot = True
+            b = r.get('c03_bad')
+            if b:
+                kinds = sorted(set(d.split('/')[0] for d in b['red']))
+                try:
+                    why = family(cfg, b)
+                except Exception:
+                    why = 'queue %s' % cfg['struct']
+                fams.setdefault('queue merge advanced a %s branch to a commit whose build is not SUCCESSFUL [%s]' % (
+                    '/'.join(kinds), why), (cfg, b))
+    rep.add_part('queue structures under the C03 clause', configurations=len(cfgs))
+    if not moved_hot:
+        rep.error('vacuity: no hotfix destination advanced in the queue structures')
+    for sig, (cfg, b) in sorted(fams.items()):
+        data = dict(kind='c05-structures', cfg=cfg, status=b['status'])
+        rep.cexs.append(Cex('C03', sig, data, c03_replay(data),
+                            '%s: statuses %s -> %s advanced to %s' % (
+                                signature(cfg, b), {k.split('/bugfix')[0]: v for k, v in b['status'].items()
+                                                    if v != 'SUCCESSFUL'}, b['red'],
+                                {d: b['landed'][d] for d in b['red']})))
